@@ -289,8 +289,10 @@ def rate_of_change(x, t, threshold):
         elif i == 0 or miss(x[i - 1]):
             out.append(fs(G))
         else:
-            r = Fraction(abs(Fraction(v) - Fraction(x[i - 1]))) / Fraction(t[i] - t[i - 1])
-            out.append(fs(S) if r > Fraction(threshold) else fs(G))
+            # "|x[n]-x[n-1]| divided by the whole seconds elapsed exceeds the threshold", in float64 arithmetic:
+            # the difference of dyadic values is exact, the quotient is the correctly rounded IEEE quotient
+            r = abs(v - x[i - 1]) / float(t[i] - t[i - 1])
+            out.append(fs(S) if r > threshold else fs(G))
     return out
 
 
